@@ -121,6 +121,9 @@ func (g *Gen) WellFormedFlow(pid int) *ps.Program {
 		if t.Err && len(t.Outs) > 0 && g.chance(35) {
 			t.FB = true
 		}
+		if t.Err && len(t.Outs) == 0 && g.chance(20) {
+			t.FB = true // cff.FallbackWith() without values on an output-less task
+		}
 		p.Tasks = append(p.Tasks, t)
 		avail = append(avail, t.Outs...)
 	}
@@ -167,6 +170,9 @@ func (g *Gen) WellFormedFlow(pid int) *ps.Program {
 		if consumed[x] && !contains(p.Results, x) && g.chance(12) {
 			p.Results = append(p.Results, x)
 		}
+		if contains(p.Results, x) && g.chance(6) {
+			p.Results = append(p.Results, x) // the same type in two Results targets
+		}
 	}
 	g.R.Shuffle(len(p.Results), func(i, j int) { p.Results[i], p.Results[j] = p.Results[j], p.Results[i] })
 
@@ -203,6 +209,7 @@ func (g *Gen) flowOpts(p *ps.Program) {
 	p.Wrap = g.chance(65)
 	p.Generic = g.chance(12)
 	p.TyAlias = g.chance(25)
+	p.Site = g.pickS("assign", "assign", "assign", "return", "if", "arg")
 }
 
 func homes(tys ...[]int) (ext, local bool) {
@@ -705,6 +712,7 @@ func (g *Gen) ParallelProgram(pid int) *ps.Program {
 	p.Wrap = g.chance(65)
 	p.Generic = g.chance(20)
 	p.TyAlias = g.chance(25)
+	p.Site = g.pickS("assign", "assign", "assign", "return", "if", "arg")
 	g.forms(p)
 	g.order(p)
 	return p
